@@ -67,7 +67,7 @@ SEMANTIC_RULES = {
     "C10": {"ENTRY", "PRIM", "CLONE", "BACKEND", "FTYPE", "OWN", "IMM"},
     "C11": {"R1", "R5", "R6", "R7"},
     "C13": {"UNIQ", "LCA", "SIZED", "CONST", "XMODEL", "CONSTREJ", "DET"},
-    "C14": {"R2", "R5"},
+    "C14": {"R1v", "R2", "R5"},
     "C16": {"CLONE", "R6", "R7", "R8"},
     "C17": {"R1", "R2", "R5", "R6"},
     "C18": {"R1", "R2", "R3", "R4", "R5"},
